@@ -124,7 +124,13 @@ def model_potentials(model, attrs, sizes, in_pots, permute=False):
     dom = Domain(attrs, sizes)
     if permute:
         # same parameters, but each factor lists its attributes in reversed order (factors are addressed by name)
-        return CliqueVector({cl: Factor(dom.project(tuple(reversed(cl))), np.ascontiguousarray(np.transpose(arrs[cl]))) for cl in model.cliques})
+        out = {}
+        for i, cl in enumerate(model.cliques):   # every second factor reversed: senders and receivers of messages disagree on the order
+            if i % 2 == 1:
+                out[cl] = Factor(dom.project(tuple(reversed(cl))), np.ascontiguousarray(np.transpose(arrs[cl])))
+            else:
+                out[cl] = Factor(dom.project(cl), arrs[cl])
+        return CliqueVector(out)
     return CliqueVector({cl: Factor(dom.project(cl), arrs[cl]) for cl in model.cliques})
 
 
